@@ -109,6 +109,12 @@ impl Analysis {
         self.tree.clone()
     }
 
+    /// Forgets everything that was recorded (at the start of a new pass: the new pass records it again, and what a
+    /// previous pass recorded may no longer be true)
+    pub fn clear(&mut self) {
+        self.definitions.clear();
+    }
+
     pub fn get_or_create_definition_mut(&mut self, ty: DefinitionType) -> &mut Definition {
         match self.definitions.entry(ty) {
             Entry::Occupied(e) => {
@@ -183,7 +189,17 @@ impl Analysis {
         let path = path.into();
         self.definitions
             .iter()
-            .filter(|(ty, definition)| filter(ty) && definition.contains(&self.tree, &path, pos))
+            .filter(|(ty, definition)| {
+                filter(ty)
+                    && match ty {
+                        // The location of a file definition is the entire file: only its usages (the filename in
+                        // the import statement) can be pointed at
+                        DefinitionType::Filename(_) => definition
+                            .try_get_usage_containing(&self.tree, &path, pos)
+                            .is_some(),
+                        DefinitionType::Symbol(_) => definition.contains(&self.tree, &path, pos),
+                    }
+            })
             .collect()
     }
 
